@@ -27,7 +27,7 @@ def strategy(tier):
     from hypothesis import strategies as st
     general = graph.graph_case(max_tasks=8 if tier == "quick" else 10, outcomes="some",
                             foreign=True, tape_max=60, tape_hi=31, rmout=True)
-    virtual = st.one_of(general, general, graph.layered_case(flags=(), p_fail_den=4), graph.sandwich_case())
+    virtual = st.one_of(general, general, graph.layered_case(flags=(), p_fail_den=4), graph.sandwich_case(), graph.fan_case(sizes=(10, 14, 20)))
     real = st.one_of(reallayer.real_case(), reallayer.real_case(layered=True), reallayer.real_case(max_tasks=9, jobs=(3, 4, 5, 8)))
     return reallayer.mixed(virtual, real)
 
